@@ -337,6 +337,8 @@ def run(ctx):
             raise core.Machinery('Session model run failed: %s %s\n%s' % (r.violated, r.errors[:2], r.out[-1500:]))
         cases = P.generate(ctx, sc, GEN, invariants=['TypeOK', 'AllFormsDecode'])
         rnd.shuffle(cases)
+        # per shape, first the value that leaves most OPTIONAL/DEFAULT members out (defaults are then cloned out of the schema)
+        cases.sort(key=lambda c: -json.dumps(c['v']).count('"p": false'))
         seen, picked = {}, []
         for c in cases:
             k = P.shape_key(c['T'])
